@@ -40,7 +40,7 @@ def signature(run):
 
 
 DISCOVERY = {
-    "quick": dict(mc="MC_Discovery_quick.cfg", replay="R_Discovery.cfg", shards=4, cap=6000),
+    "quick": dict(mc="MC_Discovery_quick.cfg", replay="R_Discovery.cfg", shards=4, cap=8000),
     "thorough": dict(mc="MC_Discovery.cfg", replay="R_Discovery_thorough.cfg", shards=12, cap=60000),
 }
 
